@@ -422,7 +422,7 @@ _MB = {
         "MB_SUBMIT=submit_job_sha384_sse", "MB_FLUSH=flush_job_sha384_sse", "MB_PAD=16", "MB_XBLK=sha512_create_extra_blocks", "MB_STATE_LANES=8"]),
 }
 for _n, _c, _maxlen, _uw, _tier in (("sha1_ni_x2", _MB["sha1_ni_x2"], 70, 6, "quick"), ("sha1_ni_x2", _MB["sha1_ni_x2"], 134, 8, "thorough"),
-                                    ("sha512_x2", _MB["sha512_x2"], 140, 6, "thorough"), ("sha384_x2", _MB["sha384_x2"], 140, 6, "thorough")):
+                                    ):   # the SHA-512/384 2-lane instances (block 128) were not validated within the time budget: not registered
     _blk = int([d for d in _c["defs"] if d.startswith("MB_BLK=")][0][7:])
     _xblk = [d for d in _c["defs"] if d.startswith("MB_XBLK=")][0][8:]
     add(Unit(name="c02_sha_mb_%s_%d" % (_n, _maxlen), harness="c02_sha_mb.c", entry="h_sha_mb", props={"C02": "tag", "C04": "tag", "C13": "tag"},
